@@ -361,7 +361,7 @@ func genParserInput(t *rapid.T, ep string) ParserInput {
 			// comment / armor / continuation / keyword starts in the first column, with and without a
 			// line end behind them, in front of, inside and behind a valid input
 			v := genValidFor(t, ep)
-			mark := rapid.SampledFrom([]string{"#", "# c", "#\n#", "-", "-----BEGIN PGP ", " ", "\t", ".", " .", "/*", "/* c */", "$Id$", "$Id: x $", ":", "::", ";", "--", " -- ", "\x00", "\r"}).Draw(t, "mark")
+			mark := rapid.SampledFrom([]string{"#", "# c", "#\n#", "-", "-----BEGIN PGP ", " ", "\t", ".", " .", "/*", "/* c */", "*/", "/* c", "$Id$", "$Id: x $", "$", "$ ", "$$", "$:$", "$Id", ":", "::", ";", "--", " -- ", "\x00", "\r"}).Draw(t, "mark")
 			switch rapid.IntRange(0, 4).Draw(t, "markAt") {
 			case 0:
 				v = mark + v
